@@ -1,5 +1,5 @@
 #!/usr/bin/env python3
-"""usage: tools/pmatrix.py <mode: seeds|equiv> <out.json> <dir> [<dir>...]   [-j N] [-props all|own]
+"""usage: tools/pmatrix.py <mode: seeds|equiv> <out.json> <dir> [<dir>...]   [-j N] [-props all|own|<ids>]
 Runs every <dir>/*/patch.diff against the quick checks in parallel, each in its own scratch worktree of /repo's HEAD
 (under /tmp/wtp-<i>, removed afterwards).  seeds: expect at least one obligation reported (MISSED otherwise);
 equiv: expect none (FALSE ALARM otherwise).  -props own (seeds only) runs just the properties in meta.json caught_by/property."""
@@ -33,7 +33,7 @@ def run(patch):
             b = subprocess.run(['go', 'build', './...'], cwd=wt, env=env, capture_output=True, text=True)
             if b.returncode != 0:
                 return sid, {'status': 'BUILD-FAILED', 'detail': b.stderr[:300]}
-        props = 'all'
+        props = 'all' if props_mode in ('all', 'own') else props_mode  # -props C12,C19: just these properties
         if props_mode == 'own':
             try:
                 m = json.load(open(os.path.join(os.path.dirname(patch), 'meta.json')))
